@@ -345,7 +345,7 @@ def call_fit(q, case, drop_xerr=False, use_range=True):
     if case["model"] == "polynomial":
         kw["degrees"] = case["degree"]
     if case.get("parguess") is not None:
-        kw["parguess"] = list(case["parguess"])
+        kw["parguess"] = list(case["parguess"]) if len(x) % 3 else tuple(case["parguess"])
     model = model_arg(q, case)
     form = case["form"]
     ek = {}
